@@ -15,6 +15,7 @@ import json
 import os
 
 from ..astutil import AnalysisError, dotted, src, walk_local, walk_ordered, calls_in, const_str
+from .. import pattern as P
 
 TQ = "cohdl/_core/_type_qualifier.py"
 INTR = "cohdl/_core/_intrinsic_operations.py"
@@ -122,23 +123,35 @@ def role(expr: ast.AST, fn_node, depth=0) -> str | None:
 
 
 def find_branch(fn_node, test_pred):
-    """first `if` in fn whose test satisfies test_pred -> If node."""
+    """first `if` in fn whose test satisfies test_pred -> If node.  When the dispatch variable named by the
+    predicate does not exist any more (a renamed local), the first branch testing ANY variable for the class is used."""
     for n in walk_ordered(fn_node):
         if isinstance(n, ast.If) and test_pred(n.test):
             return n
+    relaxed = getattr(test_pred, "relaxed", None)
+    if relaxed is not None:
+        for n in walk_ordered(fn_node):
+            if isinstance(n, ast.If) and relaxed(n.test):
+                return n
     return None
 
 
 def isinstance_test(var: str, cls_suffix: str):
-    def pred(t):
-        if isinstance(t, ast.Call) and dotted(t.func) == "isinstance" and len(t.args) == 2 and dotted(t.args[0]) == var:
-            c = t.args[1]
-            names = [dotted(e) for e in (c.elts if isinstance(c, ast.Tuple) else [c])]
-            if isinstance(c, ast.BinOp):
-                names = [dotted(x) for x in ast.walk(c) if isinstance(x, (ast.Attribute, ast.Name))]
-            return any(n and (n == cls_suffix or n.endswith("." + cls_suffix.split(".")[-1]) and n.split(".")[0] == cls_suffix.split(".")[0]) for n in names)
-        return False
-    return pred
+    def make(any_var):
+        def pred(t):
+            if isinstance(t, ast.Call) and dotted(t.func) == "isinstance" and len(t.args) == 2 and (
+                dotted(t.args[0]) == var or (any_var and isinstance(t.args[0], ast.Name))
+            ):
+                c = t.args[1]
+                names = [dotted(e) for e in (c.elts if isinstance(c, ast.Tuple) else [c])]
+                if isinstance(c, ast.BinOp):
+                    names = [dotted(x) for x in ast.walk(c) if isinstance(x, (ast.Attribute, ast.Name))]
+                return any(n and (n == cls_suffix or n.endswith("." + cls_suffix.split(".")[-1]) and n.split(".")[0] == cls_suffix.split(".")[0]) for n in names)
+            return False
+        return pred
+    p = make(False)
+    p.relaxed = make(True)
+    return p
 
 
 def ctor_calls_in(stmts, name: str):
@@ -211,18 +224,38 @@ def backend_tokens(idx):
 
 
 def _fstring_operand_order(js: ast.JoinedStr) -> list[str]:
+    """roles (lhs / rhs / arg / op) of the values interpolated into an f-string, left to right.  A local variable
+    is resolved through its assignments in the enclosing function (whatever it is called): it has the role of the
+    IR field (`self._lhs`, `self._rhs`, `self._arg`) or of the operator table its value is computed from."""
+    mod = getattr(js, "_sa_mod", None)
+    fn = mod.parents.enclosing_function(js) if mod is not None else None
+
+    def role_of_text(t):
+        if "_lhs" in t:
+            return "lhs"
+        if "_rhs" in t:
+            return "rhs"
+        if "_arg" in t or "as_bool" in t:
+            return "arg"
+        if "operator_string" in t:
+            return "op"
+        return None
+
+    def role(e, depth=0):
+        r = role_of_text(src(e))
+        if r or depth > 3 or fn is None:
+            return r
+        roles = set()
+        for nm in [x.id for x in ast.walk(e) if isinstance(x, ast.Name)]:
+            for a in ast.walk(fn):
+                if isinstance(a, ast.Assign) and any(isinstance(t, ast.Name) and t.id == nm for t in a.targets):
+                    rr = role(a.value, depth + 1)
+                    if rr:
+                        roles.add(rr)
+        return roles.pop() if len(roles) == 1 else None
+
     names = []
     for v in js.values:
         if isinstance(v, ast.FormattedValue):
-            t = src(v.value)
-            if "_lhs" in t:
-                names.append("lhs")
-            elif "_rhs" in t or t == "shift":
-                names.append("rhs")
-            elif "_arg" in t or "as_bool" in t:
-                names.append("arg")
-            elif t == "op":
-                names.append("op")
-            else:
-                names.append(t)
+            names.append(role(v.value) or src(v.value))
     return names
